@@ -862,6 +862,10 @@ func (e *specEnv) specCall(sf *SpecFn, n *ECall) specVal {
 					a = specVal{term: a.term, typ: t}
 				}
 				if _, isSt := isStruct(t); !isSt {
+					if pt, isP := t.Underlying().(*types.Pointer); isP && a.loc {
+						// a located struct passed where a pointer is expected: its address
+						a = specVal{term: a.term, typ: pt}
+					}
 					a.loc = false
 				}
 			}
